@@ -1013,6 +1013,21 @@ def circuit_unitary(circuit, qubits, resolver):
     return u
 
 
+def _wire_rounded_pmaps(circuit):
+    """the same circuit with every float in a CircuitOperation param_resolver rounded to 32 bits (what float_value holds)"""
+    cirq = _S["cirq"]
+
+    def fix(op, _):
+        u = op.untagged
+        if not isinstance(u, cirq.CircuitOperation):
+            return op
+        pd = {k: (float(np.float32(v)) if isinstance(v, float) else v) for k, v in u.param_resolver.param_dict.items()}
+        new = u.replace(circuit=_wire_rounded_pmaps(u.circuit).freeze(), param_resolver=cirq.ParamResolver(pd))
+        return new.with_tags(*op.tags) if op.tags else new
+
+    return cirq.Circuit(cirq.Moment(fix(op, None) for op in m.operations) for m in circuit.moments)
+
+
 def count_table_hits(spec):
     """How many uses of an operation / moment / tag / sub-circuit repeat an earlier equal one (abstract level)."""
     seen, hits = set(), 0
@@ -1165,8 +1180,17 @@ def roundtrip_program(ctx, prog, label):
         if u0 is not None:
             try:
                 u1 = circuit_unitary(back, qubits, resolver)
-                ok = L.phase_equal(u1, u0, 1e-5 * max(1.0, math.sqrt(n_ops)))
+                tol = 1e-5 * max(1.0, math.sqrt(n_ops))
+                ok = L.phase_equal(u1, u0, tol)
                 d = L.phase_diff(u1, u0)
+                if not ok:
+                    # numeric literals travel as 32-bit floats; a sub-circuit parameter map like {a: 1e-06} under an
+                    # expression theta/a amplifies that rounding beyond any fixed tolerance.  The comparison is then made
+                    # against the original with its parameter-map literals rounded the way the wire format rounds them.
+                    u0w = circuit_unitary(_wire_rounded_pmaps(circuit), qubits, resolver)
+                    if np.isfinite(u0w).all() and L.phase_equal(u1, u0w, tol):
+                        ok = True
+                        ctx.event("semantic-match-after-float32-rounding-of-parameter-maps")
             except Exception as e:  # noqa: BLE001 - the original could be evaluated, the round-tripped circuit cannot
                 ok, d = False, "%s: %s" % (type(e).__name__, e)
             ctx.check(ok, "program-unitary", "C16:program-roundtrip-unitary",
